@@ -1008,6 +1008,13 @@ func (x *Exec) selectStmt(f *frame, in *ssa.Select) {
 		ch := x.val(s.Chan).T
 		chosen := eq(idx, fmt.Sprint(i))
 		x.chanBounds(st, ch)
+		if s.Dir == types.SendOnly && s.Pos.IsValid() {
+			// pseudo call site chansend#k for the send case (evaluated before the select: the
+			// channel and the value the case would send)
+			x.sitePosOverride = s.Pos
+			x.siteAssertions(st, in, "chansend", []Val{x.val(s.Chan), x.val(s.Send)})
+			x.sitePosOverride = token.NoPos
+		}
 		if s.Dir != types.SendOnly && !in.Blocking {
 			// the default case is taken only when no receive is ready: the buffers are empty
 			x.assume(st, implies(and(eq(idx, "(- 1)"), not(eq(ch, "0"))), eq(sx("select", hl, ch), "0")))
